@@ -33,7 +33,7 @@ GEN_FILES = ["GenConc"]
 DRIVERS = ["conc"]
 THEOREMS = ["C11_serial_if_atomic", "C11_serial_is_sequential", "C11_atomic_loses_nothing",
             "C11_locked_loses_nothing", "C11_lost_update_refuted", "C11_notes_lost_refuted",
-            "C11_commit_loses_checkpoint_refuted", "C11_stale_base_refuted", "C11_torn_blob_refuted", "C11_no_phantoms", "C11_no_duplicates",
+            "C11_commit_loses_checkpoint_refuted", "C11_stale_base_refuted", "C11_torn_blob_refuted", "C11_new_head_checkpoint_kept", "C11_reset_of_new_log_would_lose", "C11_no_phantoms", "C11_no_duplicates",
             "C11_worktree_isolated", "C11_checkpoints_in_two_worktrees", "C11_storage_paths_distinct",
             "C11_known_exact", "C11_two_appends_exact", "C11_nonvacuous", "C11_two_worktrees_example",
             "C11_paths_example"]
@@ -212,7 +212,7 @@ def sx_cps(cps):
 
 def parse_model(line):
     """result line of c11-run -> dict"""
-    res = {"cp": {}, "rw": {}, "notes": None, "known": None, "lost": [], "steps": None}
+    res = {"cp": {}, "rw": {}, "init": {}, "notes": None, "known": None, "lost": [], "steps": None}
     for x in C.sx_parse_many(line):
         if not isinstance(x, list) or not x:
             continue
@@ -224,6 +224,8 @@ def parse_model(line):
             res["cp"][(x[1], x[2])] = [[c[0], [list(e) for e in c[1]]] for c in x[3]]
         elif x[0] == "rw":
             res["rw"][x[1]] = list(x[2])
+        elif x[0] == "init":
+            res["init"][(x[1], x[2])] = list(x[3])
         elif x[0] == "notes":
             res["notes"] = [tuple(p) for p in x[1]]
         elif x[0] == "lost":
@@ -404,6 +406,92 @@ def sc_commit_vs_checkpoint(args):
                 f"(((cp {W0} {B0}) {sx_cps(init)}))")
         return {"idx": idx, "sched": sched, "init": init, "retired_log": old, "note1_ok": note1 == want1,
                 "edit_present": note2 == want2, "note2": note2, "model_in": body, "rcs": [r[0] for r in rcs]}
+    finally:
+        shutil.rmtree(sim.base, ignore_errors=True)
+
+
+# ------------------------------------------------------------------ scenario: a PARTIAL commit in flight, a checkpoint against the new HEAD
+PC_POINTS = ["pc-read", "pc-write", "notes-add"]
+
+
+def read_initial_sessions(path, sessions):
+    """canonical INITIAL: sorted ids k of the sessions s<k> that hold attributions there (None: no file)"""
+    try:
+        with open(path) as f:
+            o = json.load(f)
+    except (OSError, ValueError):
+        return None
+    by_hash = {session_hash(TOOL, f"s{k}"): k for k in sessions}
+    ids = set()
+    for attrs in o.get("files", {}).values():
+        for a in attrs:
+            ids.add(by_hash.get(a.get("author_id"), 99))
+    return sorted(ids)
+
+
+def sc_partial_commit(args):
+    """session s1 edits f0 (staged), session s3 edits f2 (NOT staged: carried over to the next commit through INITIAL of
+    the new commit).  `git commit` runs and is held at its post-commit points (git has already moved HEAD); a second
+    agent, s2, edits f1 and checkpoints against the NEW head (held at cp-read, cp-write).  The five points are released
+    in `sched` (thread 0 = commit: pc-read, pc-write, notes-add; thread 1 = checkpoint).  Then everything is committed.
+    Oracle: every reported edit is in some note (f0/s1 in the first, f2/s3 and f1/s2 in the second)."""
+    base, idx, sched, seg = args
+    sim = Sim(base, f"pc{idx}")
+    try:
+        sim.init({f"f{k}.txt": f"base {k}\n" for k in range(3)})
+        parent = sim.head()
+        for k, ses in ((0, "s1"), (2, "s3")):
+            sim.write(f"f{k}.txt", f"base {k}\nai line {k}\n")
+            rc, _, err = sim.checkpoint_ai(ses, [f"f{k}.txt"])
+            if rc != 0:
+                return {"idx": idx, "error": "checkpoint failed " + err[-200:]}
+        sim.realgit("add", "f0.txt")
+        p0 = Proc(sim, "c", [sim.binary, "commit", "-q", "-m", "c1"], sim.repo, PC_POINTS, env_extra={"GIT_AI": "git"})
+        if p0.wait() != "reached":
+            return {"idx": idx, "error": "commit did not reach pc-read " + str(p0.finish())}
+        c1 = sim.head()
+        if c1 == parent:
+            p0.finish()
+            return {"idx": idx, "error": "HEAD did not move before the post-commit step"}
+        sim.write("f1.txt", "base 1\nai line 1\n")
+        p1 = Proc(sim, "k", ckpt_argv(sim, "s2", ["f1.txt"]), sim.repo, ["cp-read", "cp-write"])
+        if p1.wait() != "reached":
+            p0.finish()
+            return {"idx": idx, "error": "checkpoint did not reach cp-read " + str(p1.finish())}
+        err = drive([p0, p1], sched)
+        rcs = [p0.finish(), p1.finish()]
+        if err:
+            return {"idx": idx, "error": err + " " + str(rcs)}
+        wl = os.path.join(sim.repo, ".git", "ai", "working_logs", c1)
+        new_log = read_cps(os.path.join(wl, "checkpoints.jsonl")) or []
+        new_initial = read_initial_sessions(os.path.join(wl, "INITIAL"), [1, 2, 3])
+        note1 = note_lines(sim, c1, sim.repo)
+        sim.realgit("add", "-A")
+        rc2, _, err2 = sim.git("commit", "-q", "-m", "c2")
+        c2 = sim.head()
+        note2 = note_lines(sim, c2, sim.repo) if c2 != c1 else None
+        want1 = {"f0.txt": {session_hash(TOOL, "s1"): [2]}}
+        want2 = {"f1.txt": {session_hash(TOOL, "s2"): [2]}, "f2.txt": {session_hash(TOOL, "s3"): [2]}}
+        missing = []
+        if note1 != want1:
+            missing.append({"edit": "f0.txt by s1", "commit": 1, "note": note1})
+        for fn, ses in (("f1.txt", "s2"), ("f2.txt", "s3")):
+            if (note2 or {}).get(fn) != want2[fn]:
+                missing.append({"edit": f"{fn} by {ses}", "commit": 2, "note": note2})
+        if note2 is not None and set(note2) - set(want2):
+            missing.append({"edit": "unexpected files in the second note", "commit": 2, "note": note2})
+        # the model's schedule: seg = model steps (before pc-read, at pc-read, at pc-write, at notes-add)
+        msched, cnt = [0] * seg[0], 0
+        for t in sched:
+            if t == 0:
+                cnt += 1
+                msched += [0] * seg[cnt]
+            else:
+                msched += [1]
+        body = (f"((commit {W0} {B0} 101 1 11 (3)) (appcp {W0} 101 2 ((1 1)))) ({' '.join(map(str, msched))})")
+        return {"idx": idx, "sched": sched, "threads": [PC_POINTS, ["cp-read", "cp-write"]], "new_log": new_log,
+                "new_initial": new_initial, "missing": missing, "model_in": body, "rcs": [r[0] for r in rcs],
+                "commands": sim.log[-12:]}
     finally:
         shutil.rmtree(sim.base, ignore_errors=True)
 
@@ -845,6 +933,44 @@ def run(ctx):
     if k4_witness:
         known.append(K4)
 
+    # ---------------------------------------------------------------- (C)+oracle: partial commit in flight, checkpoint against the new HEAD
+    n_rs = 1 if facts.get("new_log_reset") == 1 else 0
+    seg = (n_ev + 1, n_rf - 1, 1 + 2, n_nt + n_rs + 1)
+    s32 = interleavings([3, 2])
+    res = C.parallel_map(sc_partial_commit, [(base, i, sch, seg) for i, sch in enumerate(s32)], workers=min(C.NCPU, 6))
+    good = [x for x in res if "error" not in x]
+    errs = [x for x in res if "error" in x]
+    model = {}
+    if ctx.model_ok:
+        model = C.run_cases(C.driver_path("conc"), "c11-run", [(str(x["idx"]), x["model_in"]) for x in good])
+    mism = []
+    for x in good:
+        evaluations += 1
+        distinct.add(("pc", tuple(x["sched"])))
+        dist["partial-commit-vs-checkpoint-on-new-head"] = dist.get("partial-commit-vs-checkpoint-on-new-head", 0) + 1
+        m = parse_model(model[str(x["idx"])]) if str(x["idx"]) in model and model[str(x["idx"])].startswith("(") else None
+        if m is not None:
+            if m["cp"].get((W0, 101)) != x["new_log"]:
+                mism.append(f"schedule {x['sched']}: working log of the new commit real {x['new_log']} model {m['cp'].get((W0, 101))}")
+            if m["init"].get((W0, 101)) != (x["new_initial"] or []):
+                mism.append(f"schedule {x['sched']}: INITIAL of the new commit real {x['new_initial']} model {m['init'].get((W0, 101))}")
+            if m["known"] != 0:
+                mism.append(f"schedule {x['sched']}: model says Known_C11 although the objects differ")
+        if x["missing"]:
+            # different objects (the commit works on the OLD base's log, the notes ref and INITIAL of the new base;
+            # the checkpoint on the NEW base's log): no known class applies
+            violations.append((f"reported edit missing from the notes: {[m_['edit'] for m_ in x['missing']]} after a partial commit "
+                               f"held at {PC_POINTS} with a checkpoint against the new HEAD, release order {x['sched']} "
+                               f"(0 = commit, 1 = checkpoint)", {"kind": "partial-commit-vs-checkpoint", **x}))
+        if len(cov_samples) < 9 and x["sched"] == [0, 1, 1, 0, 0]:
+            cov_samples.append({"case": "partial commit in flight, checkpoint against the new HEAD", "schedule": x["sched"],
+                                "threads": x["threads"], "new_working_log": x["new_log"], "new_INITIAL_sessions": x["new_initial"],
+                                "edits_missing_from_notes": x["missing"]})
+    obligations.append((f"tie:correspondence Model/Conc.v vs a real partial commit in flight and a checkpoint against the new HEAD ({len(good)} schedules)",
+                        ctx.model_ok and not mism and not errs and len(good) > 0,
+                        "; ".join(mism[:3]) + ("; engine: " + errs[0]["error"][-200:] if errs else "")
+                        + ("" if ctx.model_ok else "model did not build")))
+
     # ---------------------------------------------------------------- oracle: payload intact under concurrency (blob store)
     plan = [("seq", 4)] * (1 if quick else 4) + [("conc", 8)] * (14 if quick else 80)
     res = C.parallel_map(sc_torn_blob, [(base, i, n, mode) for i, (mode, n) in enumerate(plan)], workers=3)
@@ -988,5 +1114,6 @@ def run(ctx):
             "searched": f"{evaluations} scenarios with real concurrent processes: all interleavings of the sync points of two "
                         f"checkpoint appends / two checkpoint runs / two rewrite-log appends, a sample for three, free-running "
                         f"stress (8-16 processes), one checkpoint per worktree, commits in 2-3 linked worktrees (sequential, "
-                        f"parallel, released together before `git notes add`), commit vs checkpoint in different worktrees",
+                        f"parallel, released together before `git notes add`), commit vs checkpoint in different worktrees, a partial commit held "
+                        f"at its post-commit points while another agent checkpoints against the already-moved HEAD (all 10 release orders)",
             "coverage": cov}
